@@ -33,11 +33,25 @@ PROPS = {
              trusted=["go-merkletree-sql v2 (modelled in Gsp.Smt; compared op by op: roots, all siblings, aux node, existence, verification)",
                       "json-gold (document -> dataset), not modelled",
                       "'the path denotes an entry' is decided through the key hash; two different paths sharing a hash is excluded by the idealised-hash reading (stated where used)"]),
+    "C03": P("cases = abstract documents; each is rendered k times with independent presentation choices (object keys shuffled, arrays permuted, whitespace, JSON number spellings, lexical respellings on "
+             "single-valued properties, blank-node labels added/renamed, context inline / by URL / in an array, id/type aliases vs keywords) and each rendering merklized r times alternating the default tree "
+             "and a caller-provided empty tree; all roots must equal the base root, which must equal the model's root; then up to m single-field value changes must each change the root. "
+             "non-trivial = every document (>= 1 re-presentation and >= 1 mutation); distinct = distinct (op,input) hashes",
+             shards=(8, 16), n=(12, 150),
+             trusted=["json-gold expansion and URDNA2015 (canonical labelling and quad order): not modelled; tied by the metamorphic run and the model root",
+                      "HashCR (idealised hash) for the sensitivity theorems"]),
 }
 
 NOT_APPLICABLE = {}
 
 MANIFEST_TEXT = {
+    "C03": dict(
+        text="Lean theorems: the content of the tree (key -> value map) is independent of insertion order (content_perm_indep, from lookup_addAll); under the idealised-hash hypothesis equal roots mean equal trees "
+             "(root_binds_tree) so any single-field value change, addition or removal changes the root (value_change_changes_root, presence_change_changes_root). The model's entries/root are functions of the "
+             "dataset (determinism by construction). Tie: metamorphic run on the real code (k renderings x r repetitions per abstract document, default vs caller-provided empty tree) with all roots equal to each other and to "
+             "the root computed by the Lean model (own Poseidon + SMT); every single-field mutation must change the real root.",
+        note="PARTIAL: insertion-order independence of the tree *shape* (addAll_perm) and blank-node-label invariance are not yet proved in Lean; they are covered by the correspondence. json-gold's URDNA2015 is not modelled. "
+             "Known finding F5 (array members respelled lexically change sibling order) is reported, not suppressed silently."),
     "C02": dict(
         text="Lean theorems (Gsp.Props.C02 over Gsp.Mz / Gsp.Smt): for every successfully merklized dataset and every entry, Proof returns an existence proof with the entry's value and the proof "
              "recomputes Root() from (key hash, value hash) (member_proof); for every path whose key hash is no entry's, Proof returns a non-existence proof that verifies for any value and a nil Value "
